@@ -35,7 +35,9 @@ class Exp(Transform):
 class Tanh(Transform):
     def forward(self, inputs, context=None):
         outputs = torch.tanh(inputs)
-        logabsdet = torch.log(1 - outputs ** 2)
+        # log(1 - tanh(x)^2) = 2 * (log(2) - x - softplus(-2x)); evaluating the left-hand side
+        # directly gives log(0) = -inf as soon as tanh(x) rounds to 1 (|x| > 9 in float32).
+        logabsdet = 2.0 * (np.log(2.0) - inputs - F.softplus(-2.0 * inputs))
         logabsdet = torchutils.sum_except_batch(logabsdet, num_batch_dims=1)
         return outputs, logabsdet
 
